@@ -45,7 +45,7 @@ class Result:
                 return "cpu"
             return "crash"
         if self.end is None:
-            if "AddressSanitizer" in self.err or "ThreadSanitizer" in self.err:
+            if "ERROR: AddressSanitizer" in self.err or "WARNING: ThreadSanitizer" in self.err:
                 return "crash"
             return "exited"
         return "ok"
@@ -69,7 +69,7 @@ def _preexec():
 
 
 class Driver:
-    def __init__(self, variant="plain", imports=("(scheme base)",), heap=None, prelude=None, dirs=(), big_stack=None):
+    def __init__(self, variant="plain", imports=("(scheme base)",), heap=None, prelude=None, dirs=(), big_stack=None, cwd=None):
         self.variant = variant
         self.dir = B.build(variant)
         cmd = [os.path.join(self.dir, "vdriver")]
@@ -82,6 +82,7 @@ class Driver:
         if prelude:
             cmd += ["-p", prelude]
         self.cmd = cmd
+        self.cwd = cwd
         if big_stack is None:
             big_stack = (variant == "asan")
         self.big_stack = big_stack
@@ -91,7 +92,7 @@ class Driver:
     def start(self):
         env = B.run_env(self.dir)
         self.p = subprocess.Popen(self.cmd, stdin=subprocess.PIPE, stdout=subprocess.PIPE, stderr=subprocess.PIPE,
-                                  env=env, preexec_fn=_preexec if self.big_stack else None)
+                                  env=env, preexec_fn=_preexec if self.big_stack else None, cwd=self.cwd)
         line = self.p.stdout.readline()
         if line.strip() != b"READY":
             err = self.p.stderr.read().decode(errors="replace")
